@@ -34,10 +34,15 @@ impl<R: Read> Read for Chunky<R> {
 }
 /// A writer that accepts at most `k` bytes per call.
 pub struct ChunkyW { pub inner: Vec<u8>, pub k: usize }
+thread_local! {
+    /// how many bytes the short-write destination of the current writer case holds (read after every operation for the model tie)
+    pub static CHUNKY_LEN: std::cell::Cell<usize> = std::cell::Cell::new(0);
+}
 impl Write for ChunkyW {
     fn write(&mut self, buf: &[u8]) -> std::io::Result<usize> {
         let n = buf.len().min(self.k.max(1));
         self.inner.extend_from_slice(&buf[..n]);
+        CHUNKY_LEN.with(|c| c.set(self.inner.len()));
         Ok(n)
     }
     fn flush(&mut self) -> std::io::Result<()> { Ok(()) }
